@@ -244,7 +244,7 @@ package stdlib
 //@   ensures result == itoa(wk_day(t))
 //@ func init$week at "_, week := t.ISOWeek()"
 //@   ensures result == itoa(iso_week(t))
-//@ func init$yearweek at "return strconv.Itoa(year) + \"-\" + strconv.Itoa(week)"
+//@ func init$yearweek at "year, week := t.ISOWeek()"
 //@   ensures result == itoa(iso_year(t)) + "-" + itoa(iso_week(t))
 
 // durationformat reads its argument as a plain base-10 integer number of seconds
